@@ -34,6 +34,7 @@ type vQuicConn struct {
 	cancel    context.CancelFunc
 	streams   []*vQuicStream
 	failOpen  bool
+	noStreams bool // the peer's concurrent-stream allowance is used up (and stays so: its streams are never answered)
 	closed    int
 	serveFunc func(c *vNetConn)
 }
@@ -43,8 +44,9 @@ func newVQuicConn() *vQuicConn {
 	return &vQuicConn{ctx: ctx, cancel: cancel}
 }
 
+// OpenStream never blocks: with the allowance used up it fails at once ("too many open streams").
 func (c *vQuicConn) OpenStream() (quic.Stream, error) {
-	if c.closed > 0 || (c.failOpen && verifrt.Bool("quic.openfail")) {
+	if c.closed > 0 || c.noStreams || (c.failOpen && verifrt.Bool("quic.openfail")) {
 		return nil, errVConn
 	}
 	nc := newVNetConn()
@@ -54,6 +56,19 @@ func (c *vQuicConn) OpenStream() (quic.Stream, error) {
 	s := &vQuicStream{c: nc}
 	c.streams = append(c.streams, s)
 	return s, nil
+}
+
+// OpenStreamSync blocks until a stream can be opened, the given context ends or the connection dies (quic-go).
+func (c *vQuicConn) OpenStreamSync(ctx context.Context) (quic.Stream, error) {
+	if !c.noStreams {
+		return c.OpenStream()
+	}
+	select {
+	case <-ctx.Done():
+		return nil, ctx.Err()
+	case <-c.ctx.Done():
+		return nil, errVConn
+	}
 }
 func (c *vQuicConn) Context() context.Context { return c.ctx }
 func (c *vQuicConn) CloseWithError(quic.ApplicationErrorCode, string) error {
@@ -145,7 +160,8 @@ func VerifH_C14_CallerDeadline_S3() {
 	verifrt.Unwind(80)
 	verifrt.SchedBound(2)
 	never := make(chan struct{})
-	mode := verifrt.Choose("server", 2) // 0: dial never completes, 1: connects and stays silent
+	// 0: dial never completes, 1: connects and stays silent, 2 (QUIC): connects, but the peer's stream allowance is used up
+	mode := verifrt.Choose("server", 3)
 	ctx, cancel := verifrt.CtxWithCancel(nil)
 	go cancel() // the deadline strikes at some point
 	var tr Transport
@@ -181,7 +197,9 @@ func VerifH_C14_CallerDeadline_S3() {
 				}
 				return nil, errVConn
 			}
-			return newVQuicConn(), nil
+			qc := newVQuicConn()
+			qc.noStreams = mode == 2
+			return qc, nil
 		}})
 	}
 	r, err := tr.ExchangeContext(ctx, vQuery12(1, 1))
